@@ -14,6 +14,8 @@ def plan(tier, seed):
             ch("C01", H, "h_levels_no_nulls", t, ["writer.make_definitions", "core.skip_definition_bytes"]),
             dict(name="C01-lemma-dict-index-framing", kind="pyfunc", timeout=300,
                  payload=dict(func="vf.pyshim.lemmas:dict_index_framing")),
+            dict(name="C01-lemma-type-tables", kind="pyfunc", timeout=300,
+                 payload=dict(func="vf.pyshim.lemmas:type_tables")),
             dict(name="C01-lemma-range-index", kind="pyfunc", timeout=300,
                  payload=dict(func="vf.pyshim.lemmas:range_index", kwargs=dict(max_step=6)))]
     wc = wc_lattice.jobs("C01", tier)
